@@ -67,6 +67,9 @@ fn check_one(c: &One, obs: &mut Obs) {
     obs.class_if(x.abs() > 1000 || w > 1000, "large");
     let small = w * h <= 4096;
     // points(): row-major, each once
+    if w * h <= 64 {
+        iter_protocol("Rectangle::points()", 64, || a.points(), obs);
+    }
     if small {
         let got: Vec<(i32, i32)> = a.points().map(|p| (p.x, p.y)).collect();
         let mut want = vec![];
